@@ -319,4 +319,5 @@ func resetMemos() {
 	linkFreeMemo = map[*ssa.Function]int{}
 	staleSelfTestMemo = nil
 	c02GateRecords = nil
+	fieldStoreMemo = map[string]bool{}
 }
